@@ -4,6 +4,18 @@ import json, pathlib
 V = pathlib.Path(__file__).resolve().parent.parent
 ALL = [f"C{i:02d}" for i in range(1, 20)]
 CLAIMED = {
+ "C05": dict(
+   text="Coq theorem over Cache.v (the run cycle of one node as the current code performs it: cache test, readiness gate, local "
+        "or executor run, success/failure epilogue, cache write): for EVERY deterministic node function and EVERY history of "
+        "assignments, local and executor runs, failures, refusals, flag clears and cache-resetting edits, the cached machine and "
+        "its use_cache=False twin return the same results and show the same inputs/outputs/flags after every operation; the "
+        "invariant 'a cache key is the input vector of the current output' and 'nothing changes while a job is out' are separate "
+        "theorems; the statement with silent internal edits of a composite is refuted (known finding S5). Both machines are "
+        "compared step by step with real nodes (cached and uncached), and the twin comparison on the real library (leaf nodes "
+        "and macros with child additions, replacements, silent edits) is the oracle.",
+   design="7/C05", technique="Coq simulation proof (twin machines, invariant over histories) + differential correspondence + twin oracle on the real library",
+   note="Composite internals are abstracted to a configuration value; for-loop rebuild on miss is covered by C16. Functions are "
+        "assumed deterministic and non-mutating; executor runs are observed at completion."),
  "C02": dict(
    text="Coq theorems: (1) for every history of arrivals, bare calls, connects, disconnects and resets the all-of trigger fires "
         "exactly at the steps where its round is complete (sound+complete), then starts a fresh round, given that scoped labels "
